@@ -29,19 +29,34 @@ func runGenKnown(repo string) int {
 			rel, _ := filepath.Rel(repo, filepath.Dir(path))
 			for _, d := range f.Decls {
 				if fd, ok := d.(*ast.FuncDecl); ok {
-					out = append(out, rel+" "+norm.FuncKey(fd))
+					out = append(out, rel+" "+norm.FuncKey(fd)+"\t"+norm.ASTHash(fd))
 				}
 			}
 			return nil
 		})
 	}
 	sort.Strings(out)
-	prev := ""
+	// one line per key, with every hash seen (build-tagged twins, several init functions)
+	var keys []string
+	hs := map[string][]string{}
 	for _, l := range out {
-		if l != prev {
-			fmt.Println(l)
+		i := strings.Index(l, "\t")
+		k, h := l[:i], l[i+1:]
+		if _, ok := hs[k]; !ok {
+			keys = append(keys, k)
 		}
-		prev = l
+		dup := false
+		for _, x := range hs[k] {
+			if x == h {
+				dup = true
+			}
+		}
+		if !dup {
+			hs[k] = append(hs[k], h)
+		}
+	}
+	for _, k := range keys {
+		fmt.Println(k + "\t" + strings.Join(hs[k], ","))
 	}
 	return 0
 }
